@@ -195,3 +195,5 @@ def repro(inp):
             "print(gen_C01.impl(sx.loads('%s')))\"  # drives the real manager over the scripted "
             "simulation; script=[kind(0 all,1 turn,2 dyn), n, learning, rows[done bits, all, "
             "nominated, accruals]], policies, seed, randomize" % __import__('harness.sx', fromlist=['x']).dumps(inp))
+from . import gen_Corridor  # noqa: E402  fourth end-to-end instance: MultiCorridor (design/E2E.md)
+COMPONENTS += gen_Corridor.COMPONENTS
